@@ -79,6 +79,10 @@ class CallSite:
         return "Call(%s @%s:%d bb%d)" % (self.name, self.body.file, self.ln, self.bb)
 
 
+def l_not_in(seen, l):
+    return not seen or l not in seen
+
+
 class Body:
     def __init__(self, d, facts):
         self.d = d
@@ -405,6 +409,13 @@ class Body:
             d = self.single_def(p["l"])
             if d and d[2] == "rv" and d[3]["k"] == "bin" and d[3]["op"].endswith("WithOverflow"):
                 return self._proj(self.rvname(d[3], depth, seen), p["p"][1:], depth, seen)
+        # (tmp.N) of a tuple built once (the scrutinee of a `match (a, b, c)`) renders as its N-th component
+        # ... and so does a field of a struct value built once and never handed out mutably (named or not): `r.lo` of
+        # `let r = CodeRange { lo: a, hi: b }` is `a`
+        if p["p"] and isinstance(p["p"][0], dict) and "f" in p["p"][0] and p["l"] > self.argc and l_not_in(seen, p["l"]):
+            ops = self._frozen_agg(p["l"])
+            if ops is not None and p["p"][0]["f"] < len(ops):
+                return self._proj(self.oname(ops[p["p"][0]["f"]], depth - 1, (seen or set()) | {p["l"]}), p["p"][1:], depth, seen)
         # captured variables of a closure carry their own debug names
         if p["l"] == 1 and self.kind == "Closure" and p["p"]:
             for nm, up in self.upvars:
@@ -421,6 +432,24 @@ class Body:
                     return self._proj(base, p["p"][n:], depth, seen)
         base = self.lname(p["l"], depth, seen)
         return self._proj(base, p["p"], depth, seen)
+
+    def _frozen_agg(self, l):
+        """operands of the tuple / struct aggregate that is the only definition of local l, when l is never assigned by
+        parts nor borrowed mutably (so that its fields are what it was built from); else None."""
+        c = self.__dict__.setdefault("_frozen_cache", {})
+        if l in c:
+            return c[l]
+        r = None
+        d = self.single_def(l)
+        if d and d[2] == "rv" and d[3]["k"] == "agg" and (d[3]["kind"].get("a") == "tuple" or (d[3]["kind"].get("a") == "adt" and d[3]["kind"].get("var") == d[3]["kind"].get("adt", "").rsplit("::", 1)[-1])):
+            r = d[3]["ops"]
+            for bi, si, st in self.stmts():
+                rv = st.get("rv")
+                if rv and ((rv["k"] == "ref" and rv.get("mut")) or rv["k"] == "rawptr") and rv["p"]["l"] == l:
+                    r = None
+                    break
+        c[l] = r
+        return r
 
     def _const_elem(self, p):
         """value of `K[i]` where the base local holds a named integer-array constant and i is a constant; else None."""
